@@ -513,7 +513,7 @@ def run(F, R, tier):
     rule_prec(E, R)
     rule_notbind(E, R)
     # bitwise test
-    h = E.hirs(r"compile_with_compiler::BitwiseAnd as ast::index_expr::Compare<U>>::compare$")
+    h = E.hirs(r"\w+::BitwiseAnd as ast::index_expr::Compare<U>>::compare$")
     if len(h) == 1:
         t = fn_result(h[0])
         ok = t.get("k") == "Binary" and t["op"] == "Ne" and lit_value(t["r"]) == 0 and strip(t["l"]).get("op") == "BitAnd"
@@ -521,7 +521,7 @@ def run(F, R, tier):
     else:
         R.cannot("R01-ordarm", "BitwiseAnd::compare", "anchor not found")
     # IsTrue
-    h = E.hirs(r"compile_with_compiler::IsTrue as ast::index_expr::Compare<U>>::compare$")
+    h = E.hirs(r"\w+::IsTrue as ast::index_expr::Compare<U>>::compare$")
     if len(h) == 1:
         t = fn_result(h[0])
         ok = t.get("k") == "Match" or (t.get("k") == "Unary" and t.get("op") == "Deref") or True
